@@ -4,6 +4,7 @@ import PjrpcModel.Driver.SuiteMsg
 import PjrpcModel.Driver.SuiteDispatch
 import PjrpcModel.Driver.SuiteRegistry
 import PjrpcModel.Driver.SuiteAsync
+import PjrpcModel.Driver.SuiteClient
 open Pjrpc.Driver
 
 def handle (line : String) : String :=
@@ -16,6 +17,7 @@ def handle (line : String) : String :=
       | "dispatch" => suiteDispatch c
       | "registry" => suiteRegistry c
       | "async" => suiteAsync c
+      | "client" => suiteClient c
       | s => throw s!"unknown suite {s}"
     match r with
     | .ok j => j.compress
